@@ -151,4 +151,49 @@ Proof.
                                              | conj _ (conj _ (conj _ (conj K _))) => K _ _ _ _ E end) O)).
 Qed.
 
+(* ---------- executable form of the class WX, and a non-trivial member ---------- *)
+
+Definition XFb (d : amap (fdef T)) : bool :=
+  match get d 0%N with None => true | Some _ => false end &&
+  forallb (fun '(i, fd) => match fd with
+                           | FLeaf k sc => forallb (fun stp => forallb is_remove (f_es stp)) sc
+                           | FNest _ _ _ => true
+                           end) d.
+Definition WXb (d : amap (fdef T)) : bool := Wb d && XFb d.
+
+Lemma XFb_XF d : XFb d = true -> XF d.
+Proof.
+  unfold XFb. intro Hb. apply andb_true_iff in Hb. destruct Hb as [H0 Hall].
+  rewrite forallb_forall in Hall. split.
+  - destruct (get d 0%N); [discriminate|reflexivity].
+  - intros i k sc pc D. specialize (Hall _ (get_in _ _ _ D)). cbn in Hall. rewrite forallb_forall in Hall.
+    destruct (nth_in_or_default pc sc default_step) as [Hin|Hd]; [|rewrite Hd; constructor].
+    specialize (Hall _ Hin). rewrite forallb_forall in Hall. apply Forall_forall. intros e He.
+    specialize (Hall e He). destruct e; [discriminate|exact Logic.I].
+Qed.
+
+Lemma WXb_WX d : WXb d = true -> WX d.
+Proof.
+  unfold WXb. intro Hb. apply andb_true_iff in Hb. destruct Hb as [Hw Hx]. split; [now apply Wb_W|now apply XFb_XF].
+Qed.
+
 End Top3.
+
+(* nested DoDoer, a remove() at run time, a raise in the middle of a pass of the
+   nested DoDoer: enters 1 2 3 4 5 6; doer 1 removes 5; 4 raises in its third recur *)
+Definition x_prog : prog Z :=
+  let Y := {| f_es := []; f_out := OYield None |} in
+  let X := {| f_es := []; f_out := ORaise |} in
+  {| p_tock := 1%Z; p_limit := None; p_tyme := 0%Z; p_doers := [1; 2; 5; 6]%N;
+     p_defs := [(1, FLeaf KFunc [Y; {| f_es := [ERemove 0 [5]]; f_out := OYield None |}; Y; Y; Y]);
+                (2, FNest 0%Z true [3; 4]);
+                (3, FLeaf KDoer [Y; Y; Y; Y; Y]); (4, FLeaf KDoerGen [Y; Y; Y; X]);
+                (5, FLeaf KFunc [Y; Y; Y; Y]); (6, FLeaf KDoer [Y; Y; Y; Y; Y; Y])]%N |}.
+Definition kind_ids (k : ekind) (s : st Z) : list id :=
+  map e_id (filter (fun e => match e_kind e, k with Enter, Enter | Cease, Cease => true | _, _ => false end)
+                   (rev (trace s))).
+Example x_prog_ok :
+  WXb (p_defs x_prog) = true /\ oof (do_run 10 100 x_prog) = false /\
+  kind_ids Enter (do_run 10 100 x_prog) = [1; 2; 3; 4; 5; 6]%N /\
+  kind_ids Cease (do_run 10 100 x_prog) = [5; 3; 6; 1]%N.
+Proof. vm_compute. repeat split. Qed.
